@@ -103,8 +103,8 @@ Print Assumptions C09_report_not_below_floor.
    [EAck] or [ENack] right after [ETick _ false] - before any other notification *)
 Theorem C09_before_4de5a6b_when_interims_are_answered :
   forall g evs, answered evs = true ->
-  lrun before_4de5a6b g sst0 evs = lrun head g sst0 evs /\
-  lrun_wraps before_4de5a6b g sst0 evs = lrun_wraps head g sst0 evs.
+  lrun before_4de5a6b g sst0 evs = lrun (V true false true true) g sst0 evs /\
+  lrun_wraps before_4de5a6b g sst0 evs = lrun_wraps (V true false true true) g sst0 evs.
 Proof. exact (fun g evs => lrun_answered true false true true g (length evs) evs sst0 (le_n _)). Qed.
 Print Assumptions C09_before_4de5a6b_when_interims_are_answered.
 
@@ -112,8 +112,8 @@ Print Assumptions C09_before_4de5a6b_when_interims_are_answered.
    Accounting-Response for a released session *)
 Theorem C09_before_5478db8_without_late_response :
   forall g evs, no_late evs = true ->
-  lrun before_5478db8 g sst0 evs = lrun head g sst0 evs /\
-  lrun_wraps before_5478db8 g sst0 evs = lrun_wraps head g sst0 evs.
+  lrun before_5478db8 g sst0 evs = lrun (V true false true true) g sst0 evs /\
+  lrun_wraps before_5478db8 g sst0 evs = lrun_wraps (V true false true true) g sst0 evs.
 Proof. exact (fun g evs => lrun_no_late true false true true g evs sst0). Qed.
 Print Assumptions C09_before_5478db8_without_late_response.
 
